@@ -240,3 +240,36 @@ Definition life_case_ok (c : life_case) : bool :=
 
 Definition life_mismatches (cs : list life_case) : list N :=
   map lc_id (filter (fun c => negb (life_case_ok c)) cs).
+
+(* ---- C04: grouping correspondence (count by/without over a selector) ---- *)
+From Verif Require Import Agg.
+
+Record agg_case := mkAC {
+  ac_id : N; ac_window : window; ac_lb : Z; ac_off : Z; ac_without : bool; ac_grouping : list N;
+  ac_series : list (labels * list sample);              (* the selected series, storage order *)
+  ac_expected : list (labels * list (Z * Z)) }.        (* output label set -> (t, count) *)
+
+Definition count_table := aggregate unit nat (fun _ => 0%nat) (fun a _ => S a).
+
+Definition agg_model (c : agg_case) : list (labels * list (Z * Z)) :=
+  let keys := map (fun s => group_labels (ac_without c) (ac_grouping c) (fst s)) (ac_series c) in
+  let '(inputs, groups) := assign_groups keys [] in
+  let ng := List.length groups in
+  let per_step t :=
+    let sv := select_step (ac_lb c) (ac_off c) (map snd (ac_series c)) t in
+    count_table inputs tt (repeat (mkAcc nat false 0%nat) ng) (map (fun i => (i, tt)) (svIDs sv)) in
+  let steps := map (fun t => (t, per_step t)) (grid (ac_window c)) in
+  map (fun gi => (nth gi groups [],
+                  flat_map (fun ts => let a := nth gi (snd ts) (mkAcc nat false 0%nat) in
+                                      if a_has nat a then [(fst ts, Z.of_nat (a_st nat a))] else []) steps))
+      (seq 0 ng).
+
+Definition lp_eqb (a b : labels * list (Z * Z)) : bool :=
+  labels_eqb (fst a) (fst b) && list_eqb zz_eqb (snd a) (snd b).
+
+Definition agg_case_ok (c : agg_case) : bool :=
+  let m := filter (fun x => negb (match snd x with [] => true | _ => false end)) (agg_model c) in
+  subsetb lp_eqb m (ac_expected c) && subsetb lp_eqb (ac_expected c) m.
+
+Definition agg_mismatches (cs : list agg_case) : list N :=
+  map ac_id (filter (fun c => negb (agg_case_ok c)) cs).
